@@ -280,6 +280,7 @@ type M struct {
 	MaxPreempt int
 	preCnt     *smt.Term // running preemption count (8 bit)
 	prevCk     *smt.Term
+	Hinted     bool            // the shared set was seeded from a hint file: no round-0 guessing
 	Single     bool            // the previous round saw one thread only: lock operations are invisible
 	MaxTerms   int             // cap on the number of terms (0 = none)
 	funcFile   map[string]bool // source files of those functions
@@ -1126,7 +1127,7 @@ func (m *M) isShared(p *path, s *VSet) bool {
 				return true
 			}
 			// round 0 seed: a published cell touched without any lock is probably shared
-			if m.Round == 0 && m.published[a] && len(p.cfg.Locks) == 0 {
+			if m.Round == 0 && !m.Hinted && m.published[a] && len(p.cfg.Locks) == 0 {
 				return true
 			}
 		}
